@@ -50,6 +50,9 @@ def _png(tid, k):
     return {'op': 'send_ping', 'hex': T.payload_for(tid, k, 3).encode().hex()}
 
 
+import hashlib as _hl
+_FAR = b''.join(_hl.sha256(b'far%d' % k).digest() for k in range(40))
+
 BASES = [
     {'name': 'text_vs_text', 'threads': [[_txt(1, 0)], [_txt(2, 0)]]},
     {'name': 'two_each', 'threads': [[_txt(1, 0), _bin(1, 1)],
@@ -81,6 +84,13 @@ BASES = [
          {'op': 'send_text', 'text': 'alpha alpha'}],
         [{'op': 'send_text', 'text': 'beta beta beta'},
          {'op': 'send_text', 'text': 'alpha alpha'}]]},
+    # a small negotiated client window and payloads that repeat further
+    # apart than it: the peer inflates with exactly that window
+    {'name': 'small_window_far_repeats', 'threads': [
+        [{'op': 'send_binary', 'hex': (_FAR + b'T1-0-' + _FAR).hex()},
+         {'op': 'send_binary', 'hex': (b'T1-1-' + _FAR).hex()}],
+        [{'op': 'send_binary', 'hex': (b'T2-0-' + _FAR[::-1] + _FAR).hex()}]],
+     'compress': True, 'cbits': 9},
     {'name': 'loop_echo_vs_sender', 'threads': [[_txt(1, 0), _txt(1, 1)]],
      'loop': ['text', 'ping'], 'app_echo': True},
 ]
@@ -116,6 +126,7 @@ def plan(tier):
                 ('base_random', len(BASES) * 6000),
                 ('stall', 40000),
                 ('freeze', len(BASES) * FSLOT),
+                ('cold_start', 2 * 900),
                 ('sweep2', 60000),
                 ('random', 150000),
                 ('big', 3000)]
@@ -124,6 +135,7 @@ def plan(tier):
             ('base_random', len(BASES) * 250),
             ('stall', 1500),
             ('freeze', len(BASES) * FSLOT),
+            ('cold_start', 2 * 900),
             ('sweep2', 3000 if q else 200000),
             ('random', 2500 if q else 150000),
             ('big', 60 if q else 3000)]
@@ -162,6 +174,17 @@ def make_case(family, i, rng, tier):
             case['schedule'] = {'kind': 'pct', 'seed': rng.getrandbits(32),
                                 'd': rng.choice([2, 3, 4]),
                                 'horizon': rng.choice([150, 400, 800])}
+        return case
+    if family == 'cold_start':
+        # the first sends of a freshly started process (whatever lomond
+        # fills lazily at first use is empty again), from two threads whose
+        # masking keys have a byte in common; one pre-emption at every step
+        step, other = i // 2 + 1, i % 2
+        case = {'name': 'cold_start', 'cold': True,
+                'threads': [[_txt(1, 0, 25)], [_txt(2, 0, 25)]],
+                'mask_keys': ['5a11c3d4', '0f115a77', '11223344', '5a5a5a5a'],
+                'schedule': {'kind': 'preempt',
+                             'points': [[1, 1], [step, 2 if other else 0]]}}
         return case
     if family == 'freeze':
         # a sender thread is taken off the CPU for 0.6 / 2.5 simulated
@@ -260,6 +283,9 @@ def make_case(family, i, rng, tier):
 
 
 def execute(case):
+    if case.get('cold'):
+        from .. import bootstrap
+        bootstrap.reset_process_state()
     res = Result()
     sc, tr, sched = T.run(case)
     w = tr.world
@@ -293,7 +319,8 @@ def execute(case):
         if k != 'torn_frame':
             res.bad('C11/%s/%s' % (base, k), '%s | %s' % (m, sig))
     # ---- the peer decodes every message in wire order
-    dp = peer.DeflatePeer(15, 15, False, bool(case.get('cnct')))
+    dp = peer.DeflatePeer(15, case.get('cbits') or 15, False,
+                          bool(case.get('cnct')))
     decoded = []
     inflate_error = None
     for f in wire.frames:
